@@ -224,3 +224,49 @@ Proof.
     + intros [s Hs]. vm_compute in Hs. discriminate Hs.
 Qed.
 Print Assumptions C14_main_theorem_applies.
+
+(* ---- whole patches with the option on (EnsureSim.v): "followed by arbitrary further operations".
+   The reference rfc_ens_step creates the missing parents (ens) before an add and is rfc_step otherwise;
+   Apply of the model simulates it for every patch in the domain, with the first failing operation and its
+   cause class.  DOMAIN: ensure_opts (option on, AllowMissingPathOnRemove off, no copy limit), the C01 token
+   domain, the tokens of add paths names or canonical non-negative indices (ctok), and no null on the
+   existing part of an add path (ens_run_fits) — the property excludes null and scalar values on the path,
+   and the hypothesis is needed: C14_null_parent_depends_on_representation. ---- *)
+From JP Require Import Rfc6902 Domain ApplySim.
+From JP Require EnsureSim.
+
+Theorem C14_whole_patch : forall o indent p doc t,
+  EnsureSim.ensure_opts o -> parse doc = Some t -> root_container t = true -> tnodup t = true ->
+  Forall EnsureSim.ens_op_dom p ->
+  EnsureSim.ens_run_fits (dia o) (den t) (map den_op p) = true ->
+  match EnsureSim.rfc_ens_apply (dia o) (den t) (map den_op p) with
+  | Done j => exists n, api_apply o indent p doc = ROut (output o indent (render (o_esc o) n)) /\ aval n = j /\ ngood n
+  | Failed i cz => exists e, api_apply o indent p doc = RErr (Some i) e /\ cause_rel cz e
+  end.
+Proof. exact EnsureSim.api_apply_ens_sim. Qed.
+Print Assumptions C14_whole_patch.
+
+(* "an add that succeeds without the option gives the same result with it", for whole patches *)
+Theorem C14_agrees_when_parents_exist : forall d doc p doc',
+  rfc_apply d doc p = Done doc' -> EnsureSim.rfc_ens_apply d doc p = Done doc'.
+Proof. exact EnsureSim.ens_agrees_when_parents_exist. Qed.
+Print Assumptions C14_agrees_when_parents_exist.
+
+Theorem C14_apply_agrees_when_parents_exist : forall o indent p doc t j,
+  EnsureSim.ensure_opts o -> parse doc = Some t -> root_container t = true -> tnodup t = true ->
+  Forall EnsureSim.ens_op_dom p ->
+  copies_fit (dia o) (den t) (map den_op p) = true ->
+  rfc_apply (dia o) (den t) (map den_op p) = Done j ->
+  exists n, api_apply o indent p doc = ROut (output o indent (render (o_esc o) n)) /\ aval n = j /\ ngood n.
+Proof. exact EnsureSim.api_apply_ens_agrees. Qed.
+Print Assumptions C14_apply_agrees_when_parents_exist.
+
+(* the option is consulted by add only *)
+Theorem C14_option_only_read_by_add : forall o b st op,
+  op_kind op <> KAdd -> step (EnsureSim.set_ensure o b) st op = step o st op.
+Proof. exact EnsureSim.step_ensure_irrelevant. Qed.
+Print Assumptions C14_option_only_read_by_add.
+
+Definition C14_null_parent_depends_on_representation := EnsureSim.null_parent_depends_on_representation.
+Definition C14_whole_patch_applies := EnsureSim.ens_main_theorem_applies.
+Check C14_null_parent_depends_on_representation.
